@@ -48,6 +48,26 @@ def stress(c, binary, obj, goroutines, ops, rounds, seed_off=0):
                    % (c.seed + seed_off, obj, goroutines, ops, rounds)}
 
 
+def biglist(c, binary, kind, readers, ms):
+    """directed real-time scenario "big-list snapshot" (harness/locked/biglist.go): a 1000-element ConcurrentList rotated by one
+    writer while readers call Range / AsSlice; every result must be a state the list had during the call"""
+    cmd = [binary, "c06-locked-biglist", str(c.seed), kind, str(readers), str(ms)]
+    try:
+        p = subprocess.run(cmd, stdout=subprocess.PIPE, stderr=subprocess.PIPE, text=True, timeout=300 + ms // 1000, env=GOENV)
+        out = p.stdout.strip() or ("crash: " + p.stderr[-800:])
+    except subprocess.TimeoutExpired:
+        out = "hang: the big-list scenario did not finish"
+    first = out.splitlines()[0] if out else "no output"
+    if first.startswith("ok "):
+        return None, first
+    kind_ = first.split()[0].rstrip(":")
+    if kind_ not in ("torn-read", "hang"):
+        kind_ = "crash"
+    return {"object": "clist-" + kind, "kind": kind_, "result": first[:500],
+            "how": "h c06-locked-biglist %d %s %d %d   (instrumented harness, chaos mode; prints the first torn Range/AsSlice result and the position of the tear)"
+                   % (c.seed, kind, readers, ms)}, first
+
+
 def run(c, binary, labels, tier, focus="c06"):
     nsched, maxev = (250, 90) if tier == "quick" else (5000, 140)
     rounds = 150 if tier == "quick" else 4000
@@ -81,6 +101,19 @@ def run(c, binary, labels, tier, focus="c06"):
                         break
                 if hits:
                     break
+        if model == "clist":
+            # big-list snapshot: reads that are atomic only for small lists (batched copies etc.)
+            ms = 500 if tier == "quick" else 8000
+            if broken and not hits:
+                ms = max(ms, 5000)
+            big = {}
+            for kind in ("array", "linked"):
+                h, line = biglist(c, binary, kind, 3, ms)
+                big[kind] = line[:200]
+                c.cov["evaluations"] += 1
+                if h:
+                    hits.append(h)
+            c.cov["clist_biglist"] = dict(big, duration_ms=ms, readers=3, elements=1000)
         c.cov[model + "_stress"] = {"objects": sobjs, "rounds": rounds, "goroutines": 4, "ops_per_goroutine": 10,
                                     "hits": len(hits)}
         c.cov["evaluations"] += rounds * len(sobjs)
